@@ -517,6 +517,108 @@ def ecdh_case(c, rng, s):
             c.bad('CKM_ECDH1_DERIVE: key type 0x%x CKA_VALUE_LEN %s: derived value %s is not cut from the shared secret %s' % (kt, req, None if v is None else v.hex(), secret.hex()))
 
 
+def des3_case(c, rng, s):
+    """CKM_DES3_ECB / CBC / CBC_PAD with two-key and three-key triple DES against a table-driven reference (refcrypto.des3_*,
+    validated against the openssl CLI): K3 must matter"""
+    p = c.p
+    klen = rng.choice([24, 24, 16])
+    key = bytes(rng.randrange(256) for _ in range(klen))
+    r = p.op('create %s 0=u:4 0x100=u:%s 0x11=x:%s 0x104=b:1 0x105=b:1 1=b:0 2=b:0 0x103=b:0 0x162=b:1' % (s, '0x15' if klen == 24 else '0x14', key.hex()))
+    if r.get('rv') != '0x0':
+        return
+    hk = r['h']
+    kv = p.attr(s, hk, CKA['VALUE'])
+    if kv is not None and len(kv) == klen:
+        key = kv                  # the library may have adjusted the parity bits; they do not enter the cipher
+    mode = rng.choice(['ecb', 'cbc', 'cbcpad'])
+    L = rng.choice([8, 16, 24, 40, rng.randint(0, 50)])
+    if mode != 'cbcpad':
+        L -= L % 8
+    pt = bytes(rng.randrange(256) for _ in range(L))
+    iv = bytes(rng.randrange(256) for _ in range(8))
+    if mode == 'ecb':
+        mech, ref = '0x132', R.des3_ecb(key, pt)
+    elif mode == 'cbc':
+        mech, ref = '0x133:x:%s' % iv.hex(), R.des3_cbc_enc(key, iv, pt)
+    else:
+        mech, ref = '0x136:x:%s' % iv.hex(), R.des3_cbc_enc(key, iv, R.pkcs7_pad(pt, 8))
+    if p.rv('encinit %s %s %s' % (s, mech, hk)) != 0:
+        return
+    rv, out = c.out('enc %s %s %d' % (s, hx(pt), len(pt) + 24))
+    if rv != 0 or out != ref:
+        c.bad('DES3 %s encryption of %d bytes under a %d-byte key differs from the reference (rv=0x%x)' % (mode, L, klen, rv))
+        return
+    if p.rv('decinit %s %s %s' % (s, mech, hk)) == 0:
+        rv, o = c.out('dec %s %s %d' % (s, hx(ref), len(ref) + 24))
+        if rv != 0 or o != pt:
+            c.bad('DES3 %s decryption of the reference ciphertext under a %d-byte key gives a wrong plaintext (rv=0x%x)' % (mode, klen, rv))
+
+
+def seq_asym_len(lib, p11drv, seed, idx):
+    """C12 for the asymmetric mechanisms (no model: the property read off the trace): a length query for C_Sign / C_Decrypt /
+    C_Encrypt with an RSA key reports the modulus size in bytes - whatever leading zero octets the imported CKA_MODULUS
+    carried -, leaves the operation active, and a buffer of exactly the reported size completes the call"""
+    rng = random.Random(seed * 86028121 + idx)
+    p = P11(p11drv, lib)
+    c = Ctx(p)
+    try:
+        s = setup(p, rng)
+        k = RSAKEYS[rng.choice([0, 1, 2])]
+        n, e, d = int(k['n'], 16), int(k['e'], 16), int(k['d'], 16)
+        klen = (n.bit_length() + 7) // 8
+        lead = rng.choice(['', '', '00', '0000'])
+        priv = p.op('create %s 0=u:3 0x100=u:0 0x120=x:%s 0x122=x:%s 0x123=x:%s 0x124=x:%s 0x125=x:%s 0x126=x:%s 0x127=x:%s 0x128=x:%s 0x105=b:1 0x108=b:1 0x107=b:1 1=b:0 2=b:0 0x103=b:0 0x162=b:1'
+                    % (s, lead + be(n), be(e), be(d), be(int(k['p'], 16)), be(int(k['q'], 16)), be(int(k['dp'], 16)), be(int(k['dq'], 16)), be(int(k['qinv'], 16)))).get('h')
+        pub = p.op('create %s 0=u:2 0x100=u:0 0x120=x:%s 0x122=x:%s 0x104=b:1 0x10a=b:1 0x106=b:1 1=b:0 2=b:0' % (s, lead + be(n), be(e))).get('h')
+        if not priv or not pub:
+            return {'i': idx, 'trace': p.trace, 'findings': [], 'model_dis': [], 'model_evals': 0}
+        for _ in range(rng.randint(3, 6)):
+            kind = rng.choice(['sign', 'sign', 'signfin', 'dec', 'enc'])
+            mech = {'sign': rng.choice(['0x1', '0x40', '0x3']), 'signfin': rng.choice(['0x40', '0x6']), 'dec': '0x1', 'enc': '0x1'}[kind]
+            data = bytes(rng.randrange(256) for _ in range(rng.randint(1, 40)))
+            if mech == '0x3':
+                data = b'\x00' + bytes(rng.randrange(256) for _ in range(klen - 1))
+            if kind == 'dec':
+                # a ciphertext made by the library itself
+                if p.rv('encinit %s 0x1 %s' % (s, pub)) != 0:
+                    continue
+                rv, data = c.out('enc %s %s %d' % (s, hx(data), klen + 8))
+                if rv != 0:
+                    continue
+            init = {'sign': 'signinit', 'signfin': 'signinit', 'dec': 'decinit', 'enc': 'encinit'}[kind]
+            if p.rv('%s %s %s %s' % (init, s, mech, pub if kind == 'enc' else priv)) != 0:
+                continue
+            if kind == 'signfin':
+                if p.rv('signupd %s %s' % (s, hx(data))) != 0:
+                    continue
+                call = 'signfin %s' % s
+            else:
+                call = '%s %s %s' % (kind, s, hx(data))
+            r = p.op(call + ' null')
+            if r.get('rv') != '0x0' or 'len' not in r:
+                c.bad('%s with mechanism %s: the length query answers %s' % (kind, mech, r.get('rv')))
+                break
+            need = int(r['len'])
+            if need != klen:
+                c.bad('%s with mechanism %s on a %d-byte RSA key (modulus imported with %d leading zero octets): the length query reports %d' % (kind, mech, klen, len(lead) // 2, need))
+                break
+            if need > 0 and rng.random() < 0.5:
+                r = p.op(call + ' %d' % (need - 1))
+                if r.get('rv') != '0x150' or int(r.get('len', -1)) != need:
+                    c.bad('%s with mechanism %s: a buffer one byte short is answered %s / length %s (expected CKR_BUFFER_TOO_SMALL and %d)' % (kind, mech, r.get('rv'), r.get('len'), need))
+                    break
+            r = p.op(call + ' %d' % need)
+            if r.get('rv') != '0x0':
+                c.bad('%s with mechanism %s: a buffer of exactly the reported length %d is answered %s' % (kind, mech, need, r.get('rv')))
+                break
+            if r.get('ovw') == '1':
+                c.bad('%s with mechanism %s wrote beyond the announced length' % (kind, mech))
+                break
+    finally:
+        p.close()
+    return {'i': idx, 'trace': p.trace, 'findings': c.findings, 'model_dis': [], 'model_evals': 0}
+
+
 def seq_c10(lib, p11drv, seed, idx):
     rng = random.Random(seed * 104729 + idx)
     p = P11(p11drv, lib)
@@ -537,10 +639,12 @@ def seq_c10(lib, p11drv, seed, idx):
                 mac_case(c, rng, s, hgen, gkey, haes, akey)
             elif w < 0.72:
                 digest_case(c, rng, s)
-            elif w < 0.77:
+            elif w < 0.76:
                 dh_case(c, rng, s)
-            elif w < 0.83:
+            elif w < 0.80:
                 ecdh_case(c, rng, s)
+            elif w < 0.85:
+                des3_case(c, rng, s)
             else:
                 rsa_case(c, rng, s, pub, priv, k)
             if c.findings:
